@@ -1399,7 +1399,22 @@ func (n *toDateEval) Eval(env Env) (types.Value, error) {
 	if err != nil {
 		return zeroValue(), err
 	}
-	return types.NewDatetimeFromMillis(lhs.Milliseconds() - (lhs.Milliseconds() % consts.MillisPerDay)), nil
+	// Round down (toward negative infinity) to the start of the day, so that datetimes before
+	// the epoch map to the day they fall in rather than to the following one.
+	res, ok := checkedSubI64(types.Long(lhs.Milliseconds()), types.Long(floorMod(lhs.Milliseconds(), consts.MillisPerDay)))
+	if !ok {
+		return zeroValue(), fmt.Errorf("%w while attempting to compute toDate", errOverflow)
+	}
+	return types.NewDatetimeFromMillis(int64(res)), nil
+}
+
+// floorMod returns a modulo b with a result in [0, b) for b > 0.
+func floorMod(a, b int64) int64 {
+	r := a % b
+	if r < 0 {
+		r += b
+	}
+	return r
 }
 
 type toTimeEval struct {
@@ -1415,7 +1430,7 @@ func (n *toTimeEval) Eval(env Env) (types.Value, error) {
 	if err != nil {
 		return zeroValue(), err
 	}
-	return types.NewDurationFromMillis(lhs.Milliseconds() % consts.MillisPerDay), nil
+	return types.NewDurationFromMillis(floorMod(lhs.Milliseconds(), consts.MillisPerDay)), nil
 }
 
 type toMillisecondsEval struct {
